@@ -112,7 +112,7 @@ func (rw *RWMutex) RUnlock() {
 		rw.nat.RUnlock()
 		return
 	}
-	o := &op{kind: opNop, name: "runlock"}
+	o := &op{kind: opNop, name: "runlock", obj: &rw.whash, ro: true}
 	o.eff = func() {
 		if rw.readers <= 0 {
 			o.panicVal = chanPanic("sync: RUnlock of unlocked RWMutex")
